@@ -2,6 +2,8 @@
 use super::*;
 include!("common.inc");
 
+pub(crate) fn peek(t: &EntityReactionAccessTracker) -> (bool, SystemCommand, Entity, EntityReactionType, usize) { (t.currently_reacting, t.system, t.reaction_source, t.reaction_type, t.prepared.len()) }
+
 type Elem = (SystemCommand, Entity, EntityReactionType);
 fn same(a: &Elem, b: &Elem) -> bool { a == b }
 fn tid(k: u8) -> TypeId { match k { 0 => TypeId::of::<u8>(), 1 => TypeId::of::<u16>(), _ => TypeId::of::<()>() } }
